@@ -21,7 +21,7 @@ enum IntegKind { RKM = 0, RK3, RKF, RK2, Verlet, SEE2, CPodes, NumInteg };
 const char* integName(int k) { static const char* n[] = {"RungeKuttaMerson", "RungeKutta3", "RungeKuttaFeldberg", "RungeKutta2", "Verlet", "SemiExplicitEuler2", "CPodes"}; return n[k]; }
 // exponent e = p/(p+1) of the drift law and frozen constant C (calibration: DESIGN 10.3, >= 10x above the maximum seen)
 const double kExp[NumInteg]   = {0.8, 0.75, 0.8, 0.6667, 0.6667, 0.5, 0.8};
-const double kConst[NumInteg] = {100, 100, 100, 100, 10000, 1000, 100};
+const double kConst[NumInteg] = {100, 100, 100, 100, 10000, 1000, 1000};
 
 Integrator* makeIntegrator(int k, const System& sys) {
     switch (k) {
